@@ -2,6 +2,7 @@
 import BV.Common.Hex
 import BV.Common.Sha256
 import BV.Common.Hash160
+import BV.Common.Sha512
 import BV.C16.Secp
 import BV.C16.Model
 namespace BV.C16.Driver
@@ -71,6 +72,51 @@ def mkAddr (kind : String) (net : Net) (p : List UInt8) : Option Addr :=
   | "p2a" => some (.p2a (lowerStr net.hrp))
   | _ => none
 
+/-! keys -/
+
+def secpCurve : Curve Secp.Pt where
+  n := Secp.n
+  baseMul := Secp.mulG
+  add := Secp.add
+  isInf := fun p => p.isNone
+  ser := fun p => match p with
+    | some xy => Secp.serCompressed xy
+    | none => 2 :: List.replicate 32 0
+  parse := fun b => (Secp.parsePubKey b).map some
+
+def hmac512 (key data : List UInt8) : List UInt8 := BV.Sha512.hmacList key data
+def h160 (b : List UInt8) : List UInt8 := BV.Hash160.hash160List b
+
+/-- `chaincfg.HDPrivateKeyToPublicKeyID` over the registered networks -/
+def pubVer (v : List UInt8) : Option (List UInt8) :=
+  (Spec.registered.find? (fun n => n.hdPriv == v)).map (·.hdPub)
+
+def showXKey (k : XKey) : String :=
+  ascii (xkeyString cksum4 k) ++ " " ++ (if k.isPrivate then "1" else "0") ++ " " ++ toString k.depth.toNat ++ " " ++
+    toString k.childNum ++ " " ++
+    String.ofList (Spec.nets.map (fun n => if k.version == n.hdPriv || k.version == n.hdPub then '1' else '0'))
+
+def xs (k : XKey) : String := ascii (xkeyString cksum4 k)
+
+/-- one step of the `drv` walk: private child, its neutered form, and the public-side child of the neutered parent -/
+def drvWalk : List Nat → XKey → Option XKey → List String → List String
+  | [], _, _, acc => acc.reverse
+  | i :: is, k, pubSide, acc =>
+    match derive secpCurve hmac512 h160 k i with
+    | .error _ => ("err" :: acc).reverse
+    | .ok c =>
+      let nc := match neuter secpCurve pubVer c with | some x => xs x | none => "err"
+      let (ps, pstr) := match pubSide with
+        | none => (none, "-")
+        | some pk => match derive secpCurve hmac512 h160 pk i with
+          | .ok pc => (some pc, xs pc)
+          | .error .hardFromPub => (neuter secpCurve pubVer c, "err:hard")
+          | .error _ => (none, "err")
+      drvWalk is c ps ((xs c ++ "|" ++ nc ++ "|" ++ pstr) :: acc)
+
+def parsePath? (s : String) : Option (List Nat) :=
+  if s == "-" then some [] else (s.splitOn ",").mapM (·.toNat?)
+
 def handle : List String → String
   | ["b58e", b] => match hexToList? b with
     | some b => tok (b58Encode b)
@@ -114,6 +160,38 @@ def handle : List String → String
       | some a => "ok " ++ showAddr a ++ " | " ++ showXtr (payToAddrScript a) net ++ " | " ++
           showDec (a.string cksum4) net
     | _, _ => "bad-op"
+  | ["wife", id, c, key] => match hexToList? id, hexToList? key with
+    | some [id], some key => ascii (wifString cksum4 ⟨key, c == "1", id⟩)
+    | _, _ => "bad-op"
+  | ["wifd", s] => match hexToList? s with
+    | some s => match decodeWIF cksum4 s with
+      | .ok w => "ok " ++ tok [w.netID] ++ " " ++ (if w.compressed then "1" else "0") ++ " " ++ tok w.key ++ " " ++
+          String.ofList (Spec.nets.map (fun n => if w.netID == n.wif then '1' else '0')) ++ " " ++
+          ascii (wifString cksum4 w)
+      | .error .malformed => "err:malformed"
+      | .error .checksum => "err:checksum"
+    | none => "bad-op"
+  | ["xkd", s] => match hexToList? s with
+    | some s => match xkeyParse cksum4 validPK s with
+      | .ok k => "ok " ++ showXKey k
+      | .error .keyLen => "err:keylen"
+      | .error .checksum => "err:checksum"
+      | .error .unusable => "err:unusable"
+      | .error .pubkey => "err:pubkey"
+    | none => "bad-op"
+  | ["xke", ver, depth, fp, cn, cc, priv, key] =>
+    match hexToList? ver, depth.toNat?, hexToList? fp, cn.toNat?, hexToList? cc, hexToList? key with
+    | some ver, some depth, some fp, some cn, some cc, some key =>
+      xs ⟨ver, UInt8.ofNat depth, fp, cn, cc, key, priv == "1"⟩
+    | _, _, _, _, _, _ => "bad-op"
+  | ["drv", net, seed, path] => match netOf? net, hexToList? seed, parsePath? path with
+    | some net, some seed, some path => match newMaster hmac512 seed net.hdPriv with
+      | none => "err:seed"
+      | some m =>
+        let nm := neuter secpCurve pubVer m
+        let head := xs m ++ "|" ++ (match nm with | some x => xs x | none => "err")
+        " ".intercalate (head :: drvWalk path m nm [])
+    | _, _, _ => "bad-op"
   | _ => "bad-op"
 
 end BV.C16.Driver
